@@ -22,7 +22,7 @@ from common import b2f, b2fs, f2b, fs2b
 
 CONVEX = {
     "l1", "sql2", "l2", "l21", "hubersep", "hubernonsep", "nonneg", "l2ball", "setdist", "sqsetdist", "zero",
-    "sql2loss", "nuclear",
+    "sql2loss", "nuclear", "lossgen",
 }
 NONCONVEX = {"l0", "l1l2", "sql2abs", "sql2sqabs"}
 FAMILIES = sorted(CONVEX | NONCONVEX)
@@ -30,7 +30,7 @@ FAMILIES = sorted(CONVEX | NONCONVEX)
 INDICATOR = {"nonneg", "l2ball"}
 # complex input supported by the functional's definition (NonNegativeIndicator raises for complex;
 # NuclearNorm/L21 work for complex data too; SquaredL2Loss with complex diagonal A)
-COMPLEX_OK = set(FAMILIES) - {"nonneg"}
+COMPLEX_OK = set(FAMILIES) - {"nonneg", "lossgen"}
 # block input: L1MinusL2Norm.prox uses snp.max which rejects BlockArray (C13 finding, not exercised here);
 # NuclearNorm needs a 2-D array
 BLOCK_OK = set(FAMILIES) - {"l1l2", "nuclear"}
@@ -159,6 +159,63 @@ def proj_scico(spec):
 # implementation side
 
 
+def make_functional(fam, P):
+    """the scico functional of a family (not the losses)"""
+    from scico import functional as F
+
+    if fam == "l0":
+        return F.L0Norm()
+    if fam == "l1":
+        return F.L1Norm()
+    if fam == "sql2":
+        return F.SquaredL2Norm()
+    if fam == "l2":
+        return F.L2Norm()
+    if fam == "l21":
+        ax = P.get("axis", 0)
+        return F.L21Norm(l2_axis=tuple(ax) if isinstance(ax, list) else ax)
+    if fam == "hubersep":
+        return F.HuberNorm(delta=float(P["delta"]), separable=True)
+    if fam == "hubernonsep":
+        return F.HuberNorm(delta=float(P["delta"]), separable=False)
+    if fam == "l1l2":
+        return F.L1MinusL2Norm(beta=float(P["beta"]))
+    if fam == "nuclear":
+        return F.NuclearNorm()
+    if fam == "nonneg":
+        return F.NonNegativeIndicator()
+    if fam == "l2ball":
+        return F.L2BallIndicator(radius=float(P["radius"]))
+    if fam == "setdist":
+        return F.SetDistance(proj_scico(P["proj"]))
+    if fam == "sqsetdist":
+        return F.SquaredSetDistance(proj_scico(P["proj"]))
+    if fam == "zero":
+        return F.ZeroFunctional()
+    raise common.Infra(f"unknown family {fam}")
+
+
+def apply_rescale(L, ops):
+    """the rescalings of a loss object: c*L / L*c (`mul`), L/c (`div`), L.set_scale(c) (`set`)"""
+    for k, (kind, c) in enumerate(ops or []):
+        c = float(c)
+        if kind == "mul":
+            L = (c * L) if k % 2 == 0 else (L * c)
+        elif kind == "div":
+            L = L / c
+        elif kind == "set":
+            L.set_scale(c)
+        else:
+            raise common.Infra(f"unknown rescale op {kind}")
+    return L
+
+
+def eff_scale(model, P):
+    """scale attribute after the rescalings, computed by the model (`scaleAfter`)"""
+    ops = [[k, f2b(c)] for k, c in (P.get("rescale") or [])]
+    return b2f(model.call("scale_after", scale0=f2b(P["scale"]), ops=ops)["scale"])
+
+
 class Impl:
     """the real scico object of a case, with flat-vector interfaces"""
 
@@ -170,35 +227,8 @@ class Impl:
         fam, P = case["fam"], case["params"]
         rd, dt = real_dtype(case), np_dtype(case)
         self.lam = float(case["lam"])
-        if fam == "l0":
-            f = F.L0Norm()
-        elif fam == "l1":
-            f = F.L1Norm()
-        elif fam == "sql2":
-            f = F.SquaredL2Norm()
-        elif fam == "l2":
-            f = F.L2Norm()
-        elif fam == "l21":
-            ax = P.get("axis", 0)
-            f = F.L21Norm(l2_axis=tuple(ax) if isinstance(ax, list) else ax)
-        elif fam == "hubersep":
-            f = F.HuberNorm(delta=float(P["delta"]), separable=True)
-        elif fam == "hubernonsep":
-            f = F.HuberNorm(delta=float(P["delta"]), separable=False)
-        elif fam == "l1l2":
-            f = F.L1MinusL2Norm(beta=float(P["beta"]))
-        elif fam == "nuclear":
-            f = F.NuclearNorm()
-        elif fam == "nonneg":
-            f = F.NonNegativeIndicator()
-        elif fam == "l2ball":
-            f = F.L2BallIndicator(radius=float(P["radius"]))
-        elif fam == "setdist":
-            f = F.SetDistance(proj_scico(P["proj"]))
-        elif fam == "sqsetdist":
-            f = F.SquaredSetDistance(proj_scico(P["proj"]))
-        elif fam == "zero":
-            f = F.ZeroFunctional()
+        if fam not in ("sql2loss", "sql2abs", "sql2sqabs", "lossgen"):
+            f = make_functional(fam, P)
         elif fam in ("sql2loss", "sql2abs", "sql2sqabs"):
             y = flat_value(case, "y") if fam == "sql2loss" else np.asarray(case["y"], dtype=np.float64)
             ydt = dt if fam == "sql2loss" else rd
@@ -218,9 +248,16 @@ class Impl:
                 A = linop.Diagonal(to_scico(case, flat_value(case, "a"), dt))
             kw = {"y": ys, "A": A, "scale": float(P["scale"]), "W": W}
             cls = {"sql2loss": loss.SquaredL2Loss, "sql2abs": loss.SquaredL2AbsLoss, "sql2sqabs": loss.SquaredL2SquaredAbsLoss}[fam]
-            f = cls(**kw)
-        else:
-            raise common.Infra(f"unknown family {fam}")
+            f = apply_rescale(cls(**kw), P.get("rescale"))
+        elif fam == "lossgen":
+            # generic Loss(y, A=None|Identity, f=<functional>, scale): prox by translation
+            ys = to_scico(case, np.asarray(case["y"], dtype=np.float64), rd)
+            A = None
+            if P.get("A") == "identity":
+                shp = tuple(case_shapes(case)) if case.get("blocks") is not None else tuple(case["shape"])
+                A = linop.Identity(shp, input_dtype=dt)
+            inner = make_functional(P["inner"], P)
+            f = apply_rescale(loss.Loss(y=ys, A=A, f=inner, scale=float(P["scale"])), P.get("rescale"))
         self.f = f
 
     def has_prox(self):
@@ -329,8 +366,21 @@ def model_eval(model, case, impl=None):
         r = model.call("nuclear_sv", v=fs2b(s), lam=lam)
         s2 = np.asarray(b2fs(r["out"]))
         return ((U * s2) @ Vh).ravel(), None
+    if fam == "lossgen":
+        es = eff_scale(model, P)
+        case["_scale"] = es
+        extra = {}
+        if "delta" in P:
+            extra["delta"] = f2b(P["delta"])
+        if "radius" in P:
+            extra["radius"] = f2b(P["radius"])
+        if "beta" in P:
+            extra["beta"] = f2b(P["beta"])
+        r = model.call("lossgen", inner=P["inner"], v=fs2b(v), y=fs2b(np.asarray(case["y"], dtype=np.float64)), lam=lam,
+                       scale=f2b(es), **extra)
+        return np.asarray(b2fs(r["out"])), None
     if fam == "sql2loss":
-        sc = f2b(P["scale"])
+        sc = f2b(eff_scale(model, P))
         w = np.asarray(case["w"], dtype=np.float64) if case.get("w") is not None else np.ones(n)
         a = flat_value(case, "a") if P.get("A") == "diagonal" else np.ones(n)
         y = flat_value(case, "y")
@@ -341,7 +391,7 @@ def model_eval(model, case, impl=None):
             return _cx(model.call("sql2lossc", vre=vre, vim=vim, yre=yre, yim=yim, are=are, aim=aim, w=fs2b(w), lam=lam, scale=sc)), None
         return np.asarray(b2fs(model.call("sql2loss", v=fs2b(v), y=fs2b(y), a=fs2b(np.real(a)), w=fs2b(w), lam=lam, scale=sc)["out"])), None
     if fam == "sql2abs":
-        sc = f2b(P["scale"])
+        sc = f2b(eff_scale(model, P))
         w = np.asarray(case["w"], dtype=np.float64) if case.get("w") is not None else np.ones(n)
         y = np.asarray(case["y"], dtype=np.float64)
         if cplx:
@@ -349,7 +399,8 @@ def model_eval(model, case, impl=None):
             return _cx(model.call("sql2absc", vre=vre, vim=vim, y=fs2b(y), w=fs2b(w), lam=lam, scale=sc)), None
         return np.asarray(b2fs(model.call("sql2abs", v=fs2b(v), y=fs2b(y), w=fs2b(w), lam=lam, scale=sc)["out"])), None
     if fam == "sql2sqabs":
-        sc = f2b(P["scale"])
+        case["_scale"] = eff_scale(model, P)
+        sc = f2b(case["_scale"])
         w = np.asarray(case["w"], dtype=np.float64) if case.get("w") is not None else np.ones(n)
         y = np.asarray(case["y"], dtype=np.float64)
         absv = np.abs(v)
